@@ -233,9 +233,9 @@ class CoapAeadLog:
 def run_c06_coap(case, R):
     ops = case["ops"]
     names = [o[0] for o in ops]
-    faulty = {"replay", "replay-deep", "skip", "corrupt", "no-response", "network-error", "event-replay", "event-skip", "cancel"}
+    faulty = {"replay", "replay-deep", "skip", "corrupt", "no-response", "network-error", "event-replay", "event-skip", "cancel", "event-bad"}
     idx = [i for i, n in enumerate(names) if n in faulty]
-    R.nt(bool(idx) and any(n in ("get", "put", "event") for n in names[idx[0] + 1:]))
+    R.nt(bool(idx) and any(n in ("get", "put", "event", "event-replay") for n in names[idx[0] + 1:]))
     for n in set(names):
         R.cls("coap:" + n)
 
@@ -284,6 +284,16 @@ def run_c06_coap(case, R):
                         pass
                     except Exception:  # noqa: BLE001
                         pass
+                elif name == "event-bad":
+                    # an authentic event whose second entry cannot be decoded for its characteristic: whatever the handler does with it
+                    # (it may raise), the datagram has been accepted once and must never be accepted again
+                    if w.acc.sess is None or not p.is_connected:
+                        continue
+                    try:
+                        await w.push_event(w.acc.event_ciphertext([(10, b"\x01"), (op[1], bytes(op[2]))]))
+                        R.cls("coap:event-bad-handled")
+                    except Exception:  # noqa: BLE001
+                        R.cls("coap:event-bad-raised")
                 elif name in ("event", "event-replay", "event-skip"):
                     if w.acc.sess is None or not p.is_connected:
                         continue
@@ -334,7 +344,7 @@ def run_c06_coap(case, R):
 
 
 COAP_ALPHA = [("get", 0), ("put", 1, 2), ("replay", 1), ("replay", 7), ("replay-deep", 0), ("skip", 1), ("skip", 6), ("corrupt",), ("no-response",), ("event",), ("event-replay", 0),
-              ("event-skip", 0), ("cancel", 0, 5), ("reconnect",)]
+              ("event-skip", 0), ("cancel", 0, 5), ("reconnect",), ("event-bad", 11, 3)]
 
 
 def enum_c06_coap(tier):
@@ -355,12 +365,15 @@ def c06_coap_histories(draw):
     for _ in range(draw(st.integers(3, 30))):
         name = draw(st.sampled_from(["get", "get", "put", "put", "replay", "replay-deep", "replay-deep", "skip", "corrupt", "no-response", "network-error", "event", "event",
                                      "event-replay", "event-skip", "cancel", "reconnect"]))
+        if name == "event" and draw(st.integers(0, 3)) == 0:
+            ops.append(["event-bad", draw(st.sampled_from([10, 11, 12, 14, 15, 99])), draw(st.sampled_from([0, 1, 3, 9]))])
+            continue
         ops.append([name, draw(st.integers(0, 40)), draw(st.integers(0, 40))])
     return {"ops": ops, "k": draw(st.integers(0, 10))}
 
 
 C06_LAYERS = [
-    Layer("coap-dfs", run_c06_coap, enumerate=enum_c06_coap, exhaustive=True, space="all sequences over 14 events to depth 3 (quick) / 4 (thorough) ending in a request or event (deep replays also after 8 warm-up requests)", min_nontrivial=100),
+    Layer("coap-dfs", run_c06_coap, enumerate=enum_c06_coap, exhaustive=True, space="all sequences over 15 events to depth 3 (quick) / 4 (thorough) ending in a request or event (deep replays also after 8 warm-up requests)", min_nontrivial=100),
     Layer("coap-generated", run_c06_coap, strategy=c06_coap_histories, n={"quick": 1500, "thorough": 25000}),
 ]
 
